@@ -29,6 +29,135 @@ def compared_msg_names(fn):
     return out
 
 
+def measure_response_decode_guarded():
+    """What does `Connection._dispatch` do with a response whose payload cannot be decoded on this side?  Measured on the
+    live class: a MSG_REPLY with a label `_unbox` does not know is dispatched on a connection that has a waiter registered
+    under its number.  True: the waiter is given the decode failure as its exception outcome and nothing leaves
+    `_dispatch`; False: the exception leaves `_dispatch` and the waiter stays registered, never completed."""
+    from rpyc.core import brine, consts
+    from rpyc.core.channel import Channel
+    from rpyc.core.service import VoidService
+    from rpyc.core.stream import Stream
+
+    class Null(Stream):
+        closed = False
+
+        def close(self):
+            pass
+
+        def fileno(self):
+            raise EOFError()
+
+        def poll(self, timeout):
+            return False
+
+        def read(self, count):
+            raise EOFError()
+
+        def write(self, data):
+            pass
+    got = []
+    try:
+        conn = VoidService()._connect(Channel(Null(), False), {})
+        conn._request_callbacks[7] = lambda is_exc, obj: got.append((is_exc, type(obj).__name__))
+        data = brine.dump((consts.MSG_REPLY, 7, (99, 0)))
+    except Exception as ex:  # noqa
+        raise Inexpressible("cannot set up the response-decode probe: %r" % (ex,))
+    try:
+        conn._dispatch(data)
+        escaped = False
+    except Exception:  # noqa
+        escaped = True
+    finally:
+        try:
+            conn._closed = True          # (no transport behind it: nothing to close)
+        except Exception:  # noqa
+            pass
+    if not escaped and got and got[0][0] is True and 7 not in conn._request_callbacks:
+        return True
+    if escaped and not got and 7 in conn._request_callbacks:
+        return False
+    raise Inexpressible("_dispatch of an undecodable response did something the model does not know: escaped=%s, "
+                        "delivered=%r" % (escaped, got))
+
+
+def measure_cleanup():
+    """Two facts about `Connection._cleanup`, measured on the live class:
+    idempotent — a second `_cleanup()` on the same connection returns quietly (True) or raises AttributeError (False);
+    survives  — when the stream's close() raises, the disconnect hook still runs once and the tables are still cleared
+                (True), or neither happens (False)."""
+    from rpyc.core.channel import Channel
+    from rpyc.core.service import Service
+    from rpyc.core.stream import Stream
+
+    class Null(Stream):
+        def __init__(self, fail):
+            self.fail = fail
+            self.is_closed = False
+
+        @property
+        def closed(self):
+            return self.is_closed
+
+        def close(self):
+            self.is_closed = True
+            if self.fail:
+                self.fail = False
+                raise OSError(5, "close failed")
+
+        def fileno(self):
+            raise EOFError()
+
+        def poll(self, timeout):
+            return False
+
+        def read(self, count):
+            raise EOFError()
+
+        def write(self, data):
+            pass
+    runs = []
+
+    class Svc(Service):
+        def on_disconnect(self, conn):
+            runs.append(1)
+    try:
+        conn = Svc()._connect(Channel(Null(False), False), {})
+        conn._cleanup()
+    except Exception as ex:  # noqa
+        raise Inexpressible("cannot set up the _cleanup probe: %r" % (ex,))
+    try:
+        conn._cleanup()
+        idempotent = True
+    except AttributeError:
+        idempotent = False
+    except Exception as ex:  # noqa
+        raise Inexpressible("a second _cleanup() raised %r" % (ex,))
+    if len(runs) != 1:
+        raise Inexpressible("two _cleanup() calls ran the disconnect hook %d times" % len(runs))
+    del runs[:]
+    conn2 = Svc()._connect(Channel(Null(True), False), {})
+    conn2._request_callbacks[0] = lambda a, b: None
+    try:
+        conn2._cleanup()
+        raise Inexpressible("_cleanup() swallowed the stream's close() error")
+    except OSError:
+        pass
+    except Inexpressible:
+        raise
+    except Exception as ex:  # noqa
+        raise Inexpressible("_cleanup() with a failing stream close raised %r" % (ex,))
+    released = len(conn2._request_callbacks) == 0
+    if len(runs) == 1 and released:
+        survives = True
+    elif len(runs) == 0 and not released:
+        survives = False
+    else:
+        raise Inexpressible("_cleanup() with a failing stream close: hook runs %d, tables cleared %s" % (len(runs), released))
+    conn2._closed = True
+    return idempotent, survives
+
+
 def gen_proto():
     from rpyc.core import consts
     from rpyc.core.protocol import Connection
@@ -66,6 +195,14 @@ def gen_proto():
             raise Inexpressible("_dispatch compares msg with consts.%s, which the model does not know" % n)
     L += ["", "/-- the message types `_dispatch` distinguishes (`msg == consts.X`, AST, source order) -/",
           "def dispatchedMsgs : List Nat := " + lean_list([str(getattr(consts, n)) for n in cmp_names])]
+    L += ["", "/-- measured on the live `Connection._dispatch`: a response whose payload cannot be decoded is delivered to its",
+          "waiter as an exception outcome (true) instead of leaving `_dispatch` undelivered (false) -/",
+          "def responseDecodeGuarded : Bool := %s" % ("true" if measure_response_decode_guarded() else "false")]
+    idem, surv = measure_cleanup()
+    L += ["", "/-- measured on the live `Connection._cleanup`: a second run returns quietly (true) / raises AttributeError (false) -/",
+          "def cleanupIdempotent : Bool := %s" % ("true" if idem else "false"),
+          "", "/-- measured: when the stream's close() raises, `_cleanup` still runs the hook once and releases everything -/",
+          "def cleanupSurvivesChannelCloseError : Bool := %s" % ("true" if surv else "false")]
     L += ["", "end Rpyc.Gen.Proto", ""]
     return "\n".join(L)
 
